@@ -18,7 +18,7 @@
 //! Everything else is copied verbatim.
 
 use crate::printer::{norm, norm_str, OutLine, Printer, Splices};
-use crate::rewrite::{mark_fn_body, AtAnchor, Maps, Marker, Rw};
+use crate::rewrite::{mark_fn_body, AtAnchor, Closures, Maps, Marker, Rw};
 use quote::ToTokens;
 use serde_json::{json, Value as J};
 use std::collections::{HashMap, HashSet};
@@ -376,6 +376,7 @@ pub fn run(repo: &str, unit_path: &str, canary: bool) -> std::result::Result<Run
                 let mut loops: HashMap<usize, (String, Option<String>)> = HashMap::new();
                 let mut ats: Vec<(AtAnchor, String)> = vec![];
                 let mut local = maps.clone();
+                let mut closure_repl: HashMap<usize, Expr> = HashMap::new();
                 enum Sec { Contract, Loop(usize), At(usize) }
                 let mut sec = Sec::Contract;
                 i += 1;
@@ -412,6 +413,12 @@ pub fn run(repo: &str, unit_path: &str, canary: bool) -> std::result::Result<Run
                                 let a = norm_str(&a).ok_or("bad typemap key")?;
                                 local.typemap.insert(0, (a, b));
                             }
+                            Some("closuremap") => {
+                                let (a, b) = split_map(dd.trim_start()["closuremap".len()..].trim()).ok_or(format!("bad closuremap: {dd}"))?;
+                                let n: usize = a.trim().parse().map_err(|_| format!("bad closuremap ordinal: {a}"))?;
+                                let ex: Expr = parse_str(&b).map_err(|e| format!("closuremap value does not parse: {e}"))?;
+                                closure_repl.insert(n, ex);
+                            }
                             _ => return Err(format!("unknown directive inside //@fn: {dd}")),
                         }
                     } else {
@@ -438,6 +445,29 @@ pub fn run(repo: &str, unit_path: &str, canary: bool) -> std::result::Result<Run
                 let src_line = sig.ident.span().start().line;
                 let orig_text = norm(&body.to_token_stream());
                 let orig_sig = norm(&sig.to_token_stream());
+                // R11: closures — lift the n-th closure's body into a function of its own (`closure=<n> sig="..."`),
+                // and/or replace closures at their use site (`//@closuremap n => expr`).
+                let mut cl = Closures { found: vec![], replace: closure_repl.clone(), log: vec![] };
+                if let Some(nstr) = o.get("closure") {
+                    let n: usize = nstr.parse().map_err(|_| "bad closure= ordinal".to_string())?;
+                    let mut probe = Closures { found: vec![], replace: HashMap::new(), log: vec![] };
+                    probe.visit_block_mut(&mut body);
+                    let c = probe.found.get(n).ok_or(format!("lost-anchor closure #{n} in {target}"))?.clone();
+                    body = match *c.body {
+                        Expr::Block(b) => b.block,
+                        other => Block { brace_token: Default::default(), stmts: vec![Stmt::Expr(other, None)] },
+                    };
+                    rewrites.push(json!({"rule": "R11", "in": target, "file": file, "src_line": c.or1_token.span.start().line,
+                        "before": format!("closure #{n} of {target}"), "after": "lifted into a function of its own (captured variables become parameters)"}));
+                } else {
+                    cl.visit_block_mut(&mut body);
+                    for n in closure_repl.keys() {
+                        if *n >= cl.found.len() {
+                            return Err(format!("lost-anchor closuremap #{n} in {target} ({} closures)", cl.found.len()));
+                        }
+                    }
+                    rewrites.extend(cl.log.drain(..).map(|mut l| { l["in"] = json!(target); l["file"] = json!(file); l }));
+                }
 
                 // pass 1: markers
                 let mut mk = Marker {
@@ -507,6 +537,12 @@ pub fn run(repo: &str, unit_path: &str, canary: bool) -> std::result::Result<Run
                 }
                 if let Some(wc) = &sig.generics.where_clause {
                     sigtxt.push_str(&format!(" {}", wc.to_token_stream()));
+                }
+                // a lifted closure has no signature of its own: the template supplies it on a contract line `sig: <text>`
+                if o.contains_key("closure") {
+                    let pos = contract.iter().position(|l| l.trim_start().starts_with("sig:")).ok_or("closure= needs a `sig: fn name(..) -> (r: T)` line")?;
+                    let l = contract.remove(pos);
+                    sigtxt = l.trim_start()["sig:".len()..].trim().to_string();
                 }
                 let pad = " ".repeat(indent);
                 // attribute lines written in the template right above the directive (replicated for the canary copy)
